@@ -432,6 +432,7 @@ pub struct GenStats {
     pub indirect: u64,
     pub mem_global: u64,
     pub triggers: u64,
+    pub misaddressed_subs: u64,
 }
 
 /// Whole-program builder.
@@ -615,6 +616,9 @@ pub struct SubB {
     pub name: String,
     pub start: u64,
     pub cconv: Option<String>,
+    /// the function's entry address is `start + entry_skew`: with a non-zero skew no block starts at the entry
+    /// (Ghidra emits this for a function start in the middle of a basic block of another function)
+    pub entry_skew: u64,
     pub blocks: Vec<Value>,
     defs: Vec<Value>,
     jmps: Vec<Value>,
@@ -626,7 +630,7 @@ pub struct SubB {
 
 impl SubB {
     pub fn new(name: &str, start: u64) -> SubB {
-        let mut s = SubB { name: name.to_string(), start, cconv: Some("__stdcall".into()), blocks: vec![], defs: vec![], jmps: vec![], blk: None, ia: start, idx: 0, text: String::new() };
+        let mut s = SubB { name: name.to_string(), start, cconv: Some("__stdcall".into()), entry_skew: 0, blocks: vec![], defs: vec![], jmps: vec![], blk: None, ia: start, idx: 0, text: String::new() };
         s.text.push_str(&format!("sub_{} {}:\n", h8(start), name));
         s.begin_block(start);
         s
@@ -788,7 +792,8 @@ impl SubB {
         pb.stats.blocks += self.blocks.len() as u64;
         pb.stats.subs += 1;
         pb.listing.push_str(&self.text);
-        pb.subs.push(json!({"tid": {"id": format!("sub_{}", a), "address": a}, "term": {"name": self.name, "blocks": self.blocks, "calling_convention": self.cconv}}));
+        let entry = h8(self.start + self.entry_skew);
+        pb.subs.push(json!({"tid": {"id": format!("sub_{}", a), "address": entry}, "term": {"name": self.name, "blocks": self.blocks, "calling_convention": self.cconv}}));
     }
 }
 
@@ -1403,6 +1408,11 @@ pub fn gen_program(t: &mut Tape, pb: &mut Pb, prof: &Profile) -> u64 {
         let tid = pb.tid(format!("sub_{}", h8(plan.base[i])), h8(plan.base[i]));
         if i == 0 || t.prob(40) {
             pb.entry_points.push(tid);
+        }
+        if prof.dangling && i > 0 && t.prob(20) {
+            // function start inside a basic block: no block starts at the entry address
+            s.entry_skew = 2;
+            pb.stats.misaddressed_subs += 1;
         }
         s.finish(pb);
     }
